@@ -1063,6 +1063,29 @@ func (tr *Tr) loopNames(fr *frame, li *loopInfo, phiVals map[*ssa.Phi]Val) map[s
 	for n := range amb {
 		delete(names, n)
 	}
+	// address-taken locals (captured by a closure, or & taken): the variable lives in a cell allocated
+	// before the loop; its name denotes the content of the cell in the state the clause is evaluated in
+	for _, b := range fr.fn.Blocks {
+		if li.blocks[b] || !b.Dominates(li.header) {
+			continue
+		}
+		for _, ins := range b.Instrs {
+			d, ok := ins.(*ssa.DebugRef)
+			if !ok || !d.IsAddr || d.Object() == nil {
+				continue
+			}
+			al, ok := d.X.(*ssa.Alloc)
+			if !ok || al.Comment != d.Object().Name() {
+				continue
+			}
+			if _, have := names[al.Comment]; have {
+				continue
+			}
+			if v, ok := fr.vals[al]; ok {
+				names[al.Comment] = Val{T: v.T, Ty: al.Type(), Cell: true}
+			}
+		}
+	}
 	for _, ins := range li.header.Instrs {
 		phi, ok := ins.(*ssa.Phi)
 		if !ok {
